@@ -20,7 +20,7 @@ pub const LINES: [&str; 40] = [
     "b0",
     "b0 open-bitstr 12 bits close-bitstr",
     "|f| swap bitstr-append",
-    "5 4 uint! swap bitstr-append",
+    "|5| swap bitstr-append",
     "[ 1 2 ] var v0",
     "3 v0 push ! v0",
     "v0",
